@@ -53,6 +53,19 @@ def cases(tier, seed):
                 scn["pattern"] = [["solve"], ["iter", k2], ["local", 7], ["iter", 9]]
             scn["refined_midway"] = True
         out.append(scn)
+    # deep one-dimensional runs: eps between 3e-16 and 1e-13, so that the partition is refined down to a few doubles per interval
+    # (runs that the method's own guard ends at adjacent doubles are skipped, see fp-domain-exhausted)
+    for i in range(24 if tier == "quick" else 1500):
+        rng = scenario.rng_for(seed, "C02deep", i)
+        scn = scenario.gen_scenario(rng, dims=(1,), fams=["cones", "linear", "wells", "sines", "needle"], max_iters=400, refine=False)
+        scn["eps"] = float(10 ** rng.uniform(-15.5, -13))
+        scn["iters"] = int(rng.integers(300, 700))
+        scn["deep"] = True
+        if i % 2 == 0:
+            # a single cone touching zero: values near the minimiser are as small as the intervals, so the characteristics of the
+            # shortest intervals are resolved (with an offset of order 1 they drown in the rounding of z)
+            scn["obj"] = {"fam": "cones", "a": [[float(rng.uniform(0.05, 0.95))]], "c": [0.0], "K": [float(10 ** rng.uniform(-1, 1))]}
+        out.append(scn)
     # workloads written by the repository's authors (shipped examples, solving tests) under the same oracle
     out += ambient.ambient_cases(tier)
     return out
@@ -74,7 +87,7 @@ def run_case(scn):
         viol.append({"mech": "trial-authentication", "msg": p})
     viol += record.first_trial_problems(t, scn)
     obs["first_trials_checked_against_the_configured_grid"] = 1
-    a = agp_model.audit(xs, zs, scn["N"], scn["r"])
+    a = agp_model.audit(xs, zs, scn["N"], scn["r"], fp_tol=bool(scn.get("deep")))
     for v in a["violations"]:
         v = dict(v)
         v["mech"] = "decision-rule:" + v["kind"]
@@ -96,6 +109,10 @@ def run_case(scn):
         obs["continued_beyond_first_budget"] = 1
         obs["max_trials_beyond_first_budget"] = max(0, len(xs) - scn["iters"])
     obs["trials"] = len(xs)
+    if scn.get("deep"):
+        obs["deep_runs"] = 1
+        if len(xs) > 1:
+            obs["min_interval_in_deep_runs"] = float(np.min(np.diff(sorted(xs))))
     obs["max_worst_gap"] = a["worst_gap"]
     obs["dims"] = [scn["N"]]
     obs["families"] = [scn["obj"]["fam"]]
@@ -109,7 +126,7 @@ def finalize(obs, tier, stats):
     need = 8000 if tier == "quick" else 500000
     if obs.get("audited", 0) < need:
         return "only %d trials audited (< %d)" % (obs.get("audited", 0), need), {}
-    missing = [k for k in ("M_grew", "zstar_improved", "ties", "boundary_chosen", "branch_pos", "branch_neg", "continued_beyond_first_budget", "runs_continued_after_refinement") if not obs.get(k)]
+    missing = [k for k in ("M_grew", "zstar_improved", "ties", "boundary_chosen", "branch_pos", "branch_neg", "continued_beyond_first_budget", "runs_continued_after_refinement", "deep_runs") if not obs.get(k)]
     if missing:
         return "mechanisms never observed: %s" % missing, {}
     return None, {}
